@@ -74,6 +74,10 @@ pub trait Sch: 'static {
     fn proof_elem(_p: &<Self::PC as PolynomialCommitment<SF, Self::P>>::Proof, _k: usize) -> Option<SF> {
         None
     }
+    /// replaces the k-th group element of an opening proof (pairing-based schemes); false if there is none
+    fn set_proof_elem(_p: &mut <Self::PC as PolynomialCommitment<SF, Self::P>>::Proof, _k: usize, _v: SF) -> bool {
+        false
+    }
     /// reference evaluation from the raw coefficient list (independent of the polynomial type's own evaluate)
     fn ref_eval(sz: &Size, coeffs: &[SF], coords: &[SF]) -> SF;
 }
@@ -160,6 +164,10 @@ impl Sch for Marlin {
     fn proof_elem(p: &ark_poly_commit::kzg10::Proof<ToyPairing>, _k: usize) -> Option<SF> {
         Some(p.w.0)
     }
+    fn set_proof_elem(p: &mut ark_poly_commit::kzg10::Proof<ToyPairing>, _k: usize, v: SF) -> bool {
+        p.w = crate::engine::grp::TA(v);
+        true
+    }
     uni_common!();
 }
 pub struct Sonic;
@@ -173,6 +181,10 @@ impl Sch for Sonic {
     }
     fn proof_elem(p: &ark_poly_commit::kzg10::Proof<ToyPairing>, _k: usize) -> Option<SF> {
         Some(p.w.0)
+    }
+    fn set_proof_elem(p: &mut ark_poly_commit::kzg10::Proof<ToyPairing>, _k: usize, v: SF) -> bool {
+        p.w = crate::engine::grp::TA(v);
+        true
     }
     uni_common!();
 }
@@ -260,6 +272,14 @@ impl Sch for Pst13 {
     }
     fn proof_elem(p: &ark_poly_commit::marlin_pst13_pc::Proof<ToyPairing>, k: usize) -> Option<SF> {
         p.w.get(k).map(|w| w.0)
+    }
+    fn set_proof_elem(p: &mut ark_poly_commit::marlin_pst13_pc::Proof<ToyPairing>, k: usize, v: SF) -> bool {
+        if k < p.w.len() {
+            p.w[k] = crate::engine::grp::TA(v);
+            true
+        } else {
+            false
+        }
     }
     fn ncoeffs(sz: &Size, len: usize) -> usize {
         // `len` = total degree + 1 of the dense polynomial to build (capped by supported)
